@@ -208,6 +208,7 @@ class Exec:
         self.branch_timeout = 30000
         self.ext_prefix = [('_ZN4vfps7Display9printText', ext_noop)]      # logging is not the subject
         self.max_paths = 1500
+        self.track_uninit = False    # optional: flag scalar loads from never-written stack bytes (allocas; re-poisoned by llvm.lifetime.start)
         self.fork_filter = None      # optional: decide a genuine two-way fork (path-tree partitioning); returns None (explore both) | True | False
         self.time_budget = 150
 
@@ -280,6 +281,7 @@ class Exec:
             self.store_agg(st, addr, ty, val); return
         self.check_access(st, addr, n, 'store')
         if st.wlog is not None: st.wlog.append((addr, n))
+        if self.track_uninit: self._mark_init(st, addr, n)
         for a in self._overlap(st, addr, n):
             sz, kind, v = st.sym.pop(a)
             if a < addr or a + sz > addr + n:
@@ -309,6 +311,9 @@ class Exec:
         if not isinstance(addr, int): raise Unsupported('symbolic load address')
         if isinstance(ty, (StructTy, ArrTy)): return self.load_agg(st, addr, ty)
         self.check_access(st, addr, n, 'load')
+        if self.track_uninit and self._is_uninit(st, addr, n):
+            fr_ = st.frames[-1] if st.frames else None
+            st.extra.setdefault('uninit_reads', []).append((fr_.fn.name if fr_ else '?', addr, n))
         ov = self._overlap(st, addr, n)
         if ov:
             if len(ov) == 1 and ov[0] == addr and st.sym[addr][0] == n:
@@ -352,6 +357,19 @@ class Exec:
             return
         offs, _ = self.m.layout(ty)
         for o, e, v in zip(offs, ty.els, val): self.store(st, addr + o, e, v)
+    def _uninit_region(self, st, addr):
+        u = st.extra.get('uninit')
+        if not u: return None, None
+        for a, mask in u.items():
+            if a <= addr < a + len(mask): return a, mask
+        return None, None
+    def _mark_init(self, st, addr, n):
+        a, mask = self._uninit_region(st, addr)
+        if mask is not None:
+            lo = addr - a; mask[lo:lo + n] = b'\0' * min(n, len(mask) - lo)
+    def _is_uninit(self, st, addr, n):
+        a, mask = self._uninit_region(st, addr)
+        return mask is not None and any(mask[addr - a: addr - a + n])
     def malloc(self, st, n, zero=True):
         a = (st.heap + 31) & ~15; st.heap = a + max(n, 1) + 32; st.allocs[a] = n; st.aver += 1
         self.write_bytes(st, a, bytes(n))
@@ -625,6 +643,7 @@ class Exec:
                 n = self.val(st, fr, IntTy(64), ins['n'])
                 if not isinstance(n, int): raise Unsupported('symbolic alloca size')
                 a = self.malloc(st, m.sizeof(ins['ty']) * n); fr.loc[ins['dst']] = a; fr.allocas.append(a)
+                if self.track_uninit: st.extra.setdefault('uninit', {})[a] = bytearray(b'\1' * (m.sizeof(ins['ty']) * n))
             elif op in ('bitcast', 'addrspacecast'):
                 v = self.val(st, fr, ins['ty'], ins['a']); t1 = m.resolve(ins['ty']); t2 = m.resolve(ins['ty2'])
                 if isinstance(t1, FloatTy) and isinstance(t2, IntTy):
@@ -871,6 +890,10 @@ class Exec:
             alts.append((c, Fraction(k), None))
         return Forks(alts)
     def intrinsic(self, st, fr, name, args, ins):
+        if name.startswith('llvm.lifetime.start') and self.track_uninit and isinstance(args[1], int):
+            a, mask = self._uninit_region(st, args[1])
+            if mask is not None and a == args[1]: mask[:] = b'\1' * len(mask)
+            return None
         if name.startswith(('llvm.lifetime', 'llvm.dbg', 'llvm.experimental.noalias', 'llvm.assume', 'llvm.invariant', 'llvm.prefetch')): return None
         if name.startswith('llvm.fmuladd') or name.startswith('llvm.fma.'):
             bits = 32 if name.endswith('f32') else 64
@@ -962,6 +985,7 @@ class Exec:
             for x in self._overlap(st, src, 1):
                 if x < src: raise Unsupported('memcpy misaligned symbolic cell')
         data = self.read_bytes(st, src, n)
+        if self.track_uninit: self._mark_init(st, dst, n)
         for x in self._overlap(st, dst, n):
             c = st.sym[x]
             if x < dst or x + c[0] > dst + n: raise Unsupported('memcpy partially overwrites a symbolic cell')
